@@ -321,13 +321,23 @@ func buildBackend(c *httpCase, logger logrus.FieldLogger, cancel func()) (gostat
 	}
 	cl.Client.Transport = spy
 	cl.Client.Timeout = 0 // client-timeout 0 (legal): the only clocks left are the mock back-off clock and the context
+	if c.Backend == "cloudwatch" {
+		return cloudwatch.VerifNewClient(spy, "StatsD", gostatsd.TimerSubtypes{}, logger), spy, nil
+	}
+	be, err := backendOnPool(c, logger, pool, "http://"+family(c.Backend)+".invalid")
+	return be, spy, err
+}
+
+// backendOnPool builds the backend with its viper factory on the given transport pool, pointed at base.
+func backendOnPool(c *httpCase, logger logrus.FieldLogger, pool *transport.TransportPool, base string) (gostatsd.Backend, error) {
+	var err error
 	window := parseWindow(c.Window)
 	v := viper.New()
 	v.Set("flush-interval", "1s")
 	var be gostatsd.Backend
 	switch c.Backend {
 	case "datadog":
-		v.Set("datadog.api_endpoint", "http://datadog.invalid")
+		v.Set("datadog.api_endpoint", base)
 		v.Set("datadog.api_key", "k3y")
 		v.Set("datadog.metrics_per_batch", c.PerBatch)
 		v.Set("datadog.max_requests", c.MaxReq)
@@ -335,7 +345,7 @@ func buildBackend(c *httpCase, logger logrus.FieldLogger, cancel func()) (gostat
 		v.Set("datadog.compress_payload", c.Compress)
 		be, err = datadog.NewClientFromViper(v, logger, pool)
 	case "influxdb-v1", "influxdb-v2":
-		v.Set("influxdb.api-endpoint", "http://influx.invalid")
+		v.Set("influxdb.api-endpoint", base)
 		if c.Backend == "influxdb-v1" {
 			v.Set("influxdb.api-version", 1)
 			v.Set("influxdb.database", "db")
@@ -353,27 +363,25 @@ func buildBackend(c *httpCase, logger logrus.FieldLogger, cancel func()) (gostat
 		ft := strings.TrimPrefix(c.Backend, "newrelic-")
 		v.Set("flush-interval", "10s")
 		v.Set("newrelic.flush-type", ft)
-		v.Set("newrelic.address", "http://newrelic.invalid/v1/data")
+		v.Set("newrelic.address", base+"/v1/data")
 		if ft != "infra" {
 			v.Set("newrelic.api-key", "k3y")
-			v.Set("newrelic.address", "http://newrelic.invalid/v1/accounts/1/events")
-			v.Set("newrelic.address-metrics", "http://newrelic.invalid/metric/v1")
+			v.Set("newrelic.address", base+"/v1/accounts/1/events")
+			v.Set("newrelic.address-metrics", base+"/metric/v1")
 		}
 		v.Set("newrelic.metrics-per-batch", c.PerBatch)
 		v.Set("newrelic.max-requests", c.MaxReq)
 		v.Set("newrelic.max-request-elapsed-time", window)
 		be, err = newrelic.NewClientFromViper(v, logger, pool)
 	case "otlp":
-		v.Set("otlp.metrics_endpoint", "http://otlp.invalid/v1/metrics")
-		v.Set("otlp.logs_endpoint", "http://otlp.invalid/v1/logs")
+		v.Set("otlp.metrics_endpoint", base+"/v1/metrics")
+		v.Set("otlp.logs_endpoint", base+"/v1/logs")
 		v.Set("otlp.metrics_per_batch", c.PerBatch)
 		v.Set("otlp.max_requests", c.MaxReq)
 		v.Set("otlp.max_retries", c.Retries)
 		v.Set("otlp.max_request_elapsed_time", window)
 		v.Set("otlp.compress_payload", c.Compress)
 		be, err = otlp.NewClientFromViper(v, logger, pool)
-	case "cloudwatch":
-		be = cloudwatch.VerifNewClient(spy, "StatsD", gostatsd.TimerSubtypes{}, logger)
 	case "stdout":
 		be, err = stdout.NewClientFromViper(v, logger, pool)
 	case "null":
@@ -381,7 +389,7 @@ func buildBackend(c *httpCase, logger logrus.FieldLogger, cancel func()) (gostat
 	default:
 		err = fmt.Errorf("unknown backend %q", c.Backend)
 	}
-	return be, spy, err
+	return be, err
 }
 
 // ---------------------------------------------------------------------------------------------
